@@ -642,6 +642,13 @@ func (st *pvState) structField(v ssa.Value, path []string, fr *frame) {
 		if st.callField(x, 0, path, fr) {
 			return
 		}
+		if d, ok := Describe(&x.Call); ok && !x.Call.IsInvoke() {
+			if (d.Recv != "" && transparentRecv[d.Recv] && isTransparentPkg(d.Pkg)) || (d.Recv == "" && transparentFuncs[d.Name] && isTransparentPkg(d.Pkg)) {
+				// a value built by a transparent constructor: its parts are its arguments
+				st.walk(v, fr)
+				return
+			}
+		}
 	case *ssa.UnOp:
 		if x.Op == token.MUL {
 			if a, ok := x.X.(*ssa.Alloc); ok {
